@@ -173,4 +173,54 @@ theorem weak_agree : ∀ (e : FExpr) (ev : Event), whyWeak e ev = none →
     simp only [whyWeak] at h
     have := strong_agree (.not a) ev (by simpa [whyStrong] using h)
     rw [this]; simp
+
+/-! ### constant folding without identity rewrites preserves evaluation -/
+
+theorem foldLit_eval {op : ArithOp} {a b r : Operand} (h : foldLit op a b = some r) (ev : Event) :
+    evalOperand r ev = evalOperand (.arith op a b) ev := by
+  cases a <;> cases b <;> simp [foldLit] at h
+  rename_i la lb
+  cases la <;> cases lb <;> simp at h
+  · obtain ⟨h1, h2⟩ := h; subst h2
+    simp [evalOperand, Lit.toValue, evalArith]; exact h1
+  · obtain ⟨h1, h2⟩ := h; subst h2
+    simp [evalOperand, Lit.toValue, evalArith]; exact h1
+
+theorem foldOpd_eval : ∀ (o : Operand) (ev : Event), identFreeOpd o = true →
+    evalOperand (foldOpd o) ev = evalOperand o ev := by
+  intro o ev
+  induction o with
+  | field f => intro _; rfl
+  | lit l => intro _; rfl
+  | arith op a b iha ihb =>
+    intro h
+    simp only [identFreeOpd, Bool.and_eq_true, Bool.or_eq_true] at h
+    obtain ⟨⟨ha, hb⟩, hc⟩ := h
+    have e1 : evalOperand (.arith op (foldOpd a) (foldOpd b)) ev = evalOperand (.arith op a b) ev := by
+      simp only [evalOperand, iha ha, ihb hb]
+    simp only [foldOpd]
+    cases hl : foldLit op (foldOpd a) (foldOpd b) with
+    | some r => simp only []; rw [foldLit_eval hl ev, e1]
+    | none =>
+      simp only [hl, Option.isSome_none, Bool.false_eq_true, false_or, Option.isNone_iff_eq_none] at hc
+      simp only [hc]; exact e1
+
+theorem foldE_eval : ∀ (e : FExpr) (ev : Event), identFree e = true → evalE (foldE e) ev = evalE e ev := by
+  intro e ev
+  induction e with
+  | cmp op l r =>
+    intro h; simp only [identFree, Bool.and_eq_true] at h
+    simp only [foldE, evalE, foldOpd_eval l ev h.1, foldOpd_eval r ev h.2]
+  | other op l r =>
+    intro h; simp only [identFree, Bool.and_eq_true] at h
+    simp only [foldE, evalE, foldOpd_eval l ev h.1, foldOpd_eval r ev h.2]
+  | atom o => intro h; simp only [identFree] at h; simp only [foldE, evalE, foldOpd_eval o ev h]
+  | and a b iha ihb =>
+    intro h; simp only [identFree, Bool.and_eq_true] at h
+    simp only [foldE, evalE, iha h.1, ihb h.2]
+  | or a b iha ihb =>
+    intro h; simp only [identFree, Bool.and_eq_true] at h
+    simp only [foldE, evalE, iha h.1, ihb h.2]
+  | not a iha => intro h; simp only [identFree] at h; simp only [foldE, evalE, iha h]
+
 end Varpulis.Filter
